@@ -93,7 +93,7 @@ fn run(ctx: &mut Ctx) {
             ctx.violation("valid chunk not accepted", format!("plen {}", plen), json!({"bytes": hex_short(&b)}));
             return;
         }
-        if plen > 300 && thorough == false {
+        if plen > 300 && thorough == false && plen < 65532 {
             return;
         }
         let n = b.len();
@@ -166,6 +166,21 @@ fn run(ctx: &mut Ctx) {
                 differential(ctx, &x, "payload crc over wrong range");
             }
         }
+        // whole zero words appended with the payload CRC re-fixed (declared length then no longer matches)
+        for words in [1usize, 2, 3, 16] {
+            let mut x = b[..n - 4].to_vec();
+            x.extend(vec![0u8; 4 * words + 4]);
+            refix_payload(&mut x);
+            differential(ctx, &x, "zero words appended, payload crc consistent");
+        }
+        // payload CRC stored without inversion / byte-swapped
+        let mut x = b.clone();
+        let pc = enc::crc32c(&x[20..n - 4]);
+        x[n - 4..].copy_from_slice(&pc.to_le_bytes());
+        differential(ctx, &x, "payload crc not inverted");
+        let mut x = b.clone();
+        x[n - 4..].copy_from_slice(&(!pc).to_be_bytes());
+        differential(ctx, &x, "payload crc big endian");
         // not inverted / byte-swapped CRC words
         let mut x = b.clone();
         let h = enc::crc32c(&x[..16]);
@@ -230,6 +245,24 @@ fn run(ctx: &mut Ctx) {
                 continue;
             }
             corrupted(ctx, &b, &x, if k == 2 { "2-bit flips decoded" } else { "3-bit flips decoded" }, || format!("plen {}", plen));
+        }
+        // pattern bursts (all ones, alternating) of 8/16/24/32 bits at every byte-aligned offset and at every bit
+        // offset of the header / CRC / tail regions: e.g. inverting a whole CRC word is one 32-bit burst
+        let pat_step = if plen <= 4096 || (thorough && i % reps == 0) { 8 } else { 8 * 211 };
+        let pat_offs: Vec<usize> = (0..nbits).step_by(pat_step).chain(0..224.min(nbits)).chain(nbits.saturating_sub(72)..nbits).collect();
+        for off in pat_offs {
+            for (l, pat) in [(8usize, 0xFFu32), (16, 0xFFFF), (24, 0xFF_FFFF), (32, 0xFFFF_FFFF), (32, 0xAAAA_AAAB), (32, 0xD555_5555), (31, 0x7FFF_FFFF)] {
+                if off + l > nbits {
+                    continue;
+                }
+                let mut x = b.clone();
+                for k in 0..l {
+                    if pat >> k & 1 == 1 {
+                        flip(&mut x, off + k);
+                    }
+                }
+                corrupted(ctx, &b, &x, "pattern bursts (all-ones / alternating) decoded", || format!("off {} len {} pattern {:#x} plen {}", off, l, pat, plen));
+            }
         }
         // bursts: first and last flipped bit at most 32 bits apart
         let offs: Vec<usize> = if plen <= 64 || (thorough && plen <= 257) { (0..nbits).collect() } else { (0..420).chain((0..ctx.tier.pick(300, 3000)).map(|_| rng.usize(nbits))).chain(nbits - 420..nbits).collect() };
